@@ -947,6 +947,115 @@ Definition host_cut_gen (incl : bool) (ts_ last_start last_end : Z) : bool :=
     return "gen/TrimRules_gen.v"
 
 
+# ---- BreakdownAnalysis._analyze_idle_time_for_stream (hta/analyzers/breakdown_analysis.py) -> coq/gen/IdleRules_gen.v ----
+def gen_idle_rules() -> str:
+    """Reads _analyze_idle_time_for_stream statement by statement (strict shape, docstrings / logging aside): the stream's rows, end_ts,
+    the sort by (ts, end_ts), prev_end_ts = end_ts.shift(1), idle_interval = ts - prev_end_ts, the default category OTHER, host wait
+    (ts_runtime > prev_end_ts), kernel wait (not host wait and idle_interval < threshold), the per-category sums and the ratio."""
+    path = "hta/analyzers/breakdown_analysis.py"
+    tree = ast.parse(open(os.path.join(fw.REPO, path)).read())
+    cls = next((n for n in tree.body if isinstance(n, ast.ClassDef) and n.name == "BreakdownAnalysis"), None)
+    fn = next((n for n in (cls.body if cls else []) if isinstance(n, ast.FunctionDef) and n.name == "_analyze_idle_time_for_stream"), None)
+    if fn is None:
+        raise Stop("BreakdownAnalysis._analyze_idle_time_for_stream not found")
+
+    def noise(st):
+        return isinstance(st, ast.Expr) and (isinstance(st.value, ast.Constant) or
+                                             (isinstance(st.value, ast.Call) and ast.unparse(st.value.func).startswith("logger.")))
+    texts = [ast.unparse(st) for st in fn.body if not noise(st)]
+    want = ["idle_interval_stats: Optional[pd.DataFrame] = None",
+            "gpu_kernels_s = gpu_kernels[gpu_kernels.stream == stream].copy()",
+            "gpu_kernels_s['end_ts'] = gpu_kernels_s.ts + gpu_kernels_s.dur",
+            "gpu_kernels_s = gpu_kernels_s.sort_values(by=['ts', 'end_ts'])",
+            "gpu_kernels_s['prev_end_ts'] = gpu_kernels_s.end_ts.shift(1)",
+            "gpu_kernels_s['idle_interval'] = gpu_kernels_s['ts'] - gpu_kernels_s['prev_end_ts']",
+            "gpu_kernels_s['idle_category'] = IdleTimeType.OTHER.value",
+            "is_host_wait = gpu_kernels_s['ts_runtime'] > gpu_kernels_s['prev_end_ts']",
+            "gpu_kernels_s.loc[is_host_wait, 'idle_category'] = IdleTimeType.HOST_WAIT.value",
+            "is_kernel_kernel_delay = ~is_host_wait & (gpu_kernels_s['idle_interval'] < consecutive_kernel_delay)",
+            "gpu_kernels_s.loc[is_kernel_kernel_delay, 'idle_category'] = IdleTimeType.KERNEL_WAIT.value",
+            "gpu_kernels_groupby = gpu_kernels_s.groupby('idle_category')",
+            None,       # the optional statistics block
+            "result = pd.DataFrame(gpu_kernels_groupby.idle_interval.sum())",
+            "total_idle_time = result.idle_interval.sum()",
+            "result['stream'] = stream",
+            "result['idle_time_ratio'] = result['idle_interval'] / total_idle_time",
+            "result.rename(columns={'idle_interval': 'idle_time'}, inplace=True)",
+            "return (result, idle_interval_stats)"]
+    if len(texts) != len(want):
+        raise Stop(f"_analyze_idle_time_for_stream: {len(texts)} statements, the model was written for {len(want)}")
+    for a, b in zip(texts, want):
+        if b is None:
+            if not a.startswith("if show_idle_interval_stats:"):
+                raise Stop(f"_analyze_idle_time_for_stream: `{a[:80]}` where the statistics block was expected")
+        elif a != b:
+            raise Stop(f"_analyze_idle_time_for_stream: `{a[:140]}` is not `{b}`")
+    out = '''(* GENERATED by harness/translate.py from hta/analyzers/breakdown_analysis.py (BreakdownAnalysis._analyze_idle_time_for_stream)
+   -- do not edit.  Rows of the stream sorted by (ts, end_ts); for each row after the first: gap = ts - previous end; host wait when
+   the launch call's start is known and lies after the previous end (a comparison with NaN is false); otherwise kernel wait when the gap is
+   below the threshold; otherwise other.  Categories: 0 host_wait, 1 kernel_wait, 2 other. *)
+From HTA.lib Require Import Base.
+Open Scope Z_scope.
+
+Definition idle_sort_keys_gen : list string := ["ts"; "end_ts"].
+Definition classify_gen (d : Z) (rt : option Z) (prev_end gap : Z) : Z :=
+  let host_wait := match rt with Some r => prev_end <? r | None => false end in
+  if host_wait then 0 else if gap <? d then 1 else 2.
+'''
+    write_if_changed(os.path.join(GEN, "IdleRules_gen.v"), out)
+    return "gen/IdleRules_gen.v"
+
+
+# ---- transform_correlation_to_index and Trace._align_all_ranks (hta/common/trace.py) -> coq/gen/LinkRules_gen.v ----
+def gen_link_rules() -> str:
+    """Reads transform_correlation_to_index and Trace._align_all_ranks statement by statement (strict shape): the fallback
+    min(correlation, 0), the selection of rows with an id (correlation != -1), the two shared filters, the inner merge on the id, the two
+    symmetric assignments; the global minimum start, subtracted from ts and end of every rank."""
+    path = "hta/common/trace.py"
+    tree = ast.parse(open(os.path.join(fw.REPO, path)).read())
+    fn = next((n for n in tree.body if isinstance(n, ast.FunctionDef) and n.name == "transform_correlation_to_index"), None)
+    if fn is None:
+        raise Stop("transform_correlation_to_index not found")
+    texts = [ast.unparse(st) for st in fn.body if not (isinstance(st, ast.Expr) and isinstance(st.value, ast.Constant))]
+    want = ["if 'correlation' not in df.columns:\n    return df",
+            "df['index_correlation'] = np.minimum(df['correlation'], 0).astype('int64')",
+            "corr_df = df.loc[df['correlation'].ne(-1), ['index', 'correlation', 'stream', 'name']]",
+            "on_cpu = CPUOperatorFilter()(corr_df, symbol_table)",
+            "on_gpu = GPUKernelFilter()(corr_df, symbol_table)",
+            "merged = on_cpu.merge(on_gpu, on='correlation', how='inner')",
+            "df.loc[merged['index_x'], 'index_correlation'] = merged['index_y'].values",
+            "df.loc[merged['index_y'], 'index_correlation'] = merged['index_x'].values",
+            "df['index_correlation'] = pd.to_numeric(df['index_correlation'], downcast='integer')",
+            "return df"]
+    if texts != want:
+        bad = next((a for a, b in zip(texts, want) if a != b), f"{len(texts)} statements instead of {len(want)}")
+        raise Stop(f"transform_correlation_to_index: `{bad[:140]}` is not what the model was written for")
+    cls = next((n for n in tree.body if isinstance(n, ast.ClassDef) and n.name == "Trace"), None)
+    al = next((n for n in (cls.body if cls else []) if isinstance(n, ast.FunctionDef) and n.name == "_align_all_ranks"), None)
+    if al is None:
+        raise Stop("Trace._align_all_ranks not found")
+    texts = [ast.unparse(st) for st in al.body if not (isinstance(st, ast.Expr) and isinstance(st.value, ast.Constant))]
+    want = ["self.min_ts = min((trace_df['ts'].min() for trace_df in self.traces.values()))",
+            "for rank, trace_df in self.traces.items():\n    trace_df['ts'] = trace_df['ts'] - self.min_ts\n    if 'end' in trace_df.columns:\n"
+            "        trace_df['end'] = trace_df['end'] - self.min_ts\n    self.traces[rank] = trace_df"]
+    if texts != want:
+        bad = next((a for a, b in zip(texts, want) if a != b), f"{len(texts)} statements instead of {len(want)}")
+        raise Stop(f"_align_all_ranks: `{bad[:160]}` is not what the model was written for")
+    out = '''(* GENERATED by harness/translate.py from hta/common/trace.py (transform_correlation_to_index, Trace._align_all_ranks) -- do not edit.
+   Link: rows whose correlation id is not -1, host side and device side by the two shared filters, inner-joined on the id, each row
+   of a pair given the other's row id; every other row keeps min(correlation, 0).  Alignment: one constant, the minimum start over all
+   ranks, subtracted from the start (and the end) of every row. *)
+From HTA.lib Require Import Base.
+Open Scope Z_scope.
+
+Definition link_fallback_gen (corr_ : Z) : Z := Z.min corr_ 0.
+Definition has_id_gen (corr_ : Z) : bool := negb (corr_ =? -1).
+Definition aligned_gen (min_ts ts_ : Z) : Z := ts_ - min_ts.
+'''
+    write_if_changed(os.path.join(GEN, "LinkRules_gen.v"), out)
+    return "gen/LinkRules_gen.v"
+
+
 # ---- the change classes of hta/trace_diff.py -> coq/gen/DiffRules_gen.v ----
 def gen_diff_rules() -> str:
     """Reads TraceDiff.compare_traces (diff_counts / diff_duration = test minus control; the sign lambda of counts_change_categories) and the
